@@ -114,6 +114,15 @@ Section Bvh.
     t <~ insert_aabb (atree st) (aabb_of c) (f, o) ;;
     XOk (State (heap st) (tmap st) cs t (wls st)).
 
+  (** There is no method that removes a collider: a caller who takes one out edits the public
+      attributes, [del bvh.colliders_[frame]; bvh.collider_frames.discard(frame)] ([KeyError] for
+      an unknown frame).  The tree keeps its leaf (payload = the removed object) until the next
+      [update_collider_poses] builds a fresh tree from [colliders_]. *)
+  Definition remove_collider (st : state) (f : frame) : xres state :=
+    if dict_mem feqb (colliders st) f
+    then XOk (State (heap st) (tmap st) (dict_pop feqb (colliders st) f) (atree st) (wls st))
+    else XErr XKey.
+
   (** the loop of [update_collider_poses] *)
   Fixpoint upd_loop (tm : frame -> option pose) (cs : list (frame * oid)) (hp : list coll)
            (t : tree) : xres (list coll * tree) :=
@@ -259,7 +268,8 @@ Section Bvh.
   | Add (f : frame) (o : oid)                      (* add_collider *)
   | SetTm (t : frame -> option pose)               (* set_joint / add_transform on the tm *)
   | SetWl (w : list (frame * list frame))          (* whitelists_.update(...) *)
-  | UpdatePoses.                                   (* update_collider_poses *)
+  | UpdatePoses                                    (* update_collider_poses *)
+  | Remove (f : frame).                            (* del colliders_[f] (tool taken off) *)
 
   Definition step (st : state) (o : op) : xres state :=
     match o with
@@ -267,6 +277,7 @@ Section Bvh.
     | SetTm t => XOk (State (heap st) t (colliders st) (atree st) (wls st))
     | SetWl w => XOk (set_whitelists st w)
     | UpdatePoses => update_collider_poses st
+    | Remove f => remove_collider st f
     end.
 
   Fixpoint run_ops (st : state) (h : list op) : xres state :=
